@@ -553,9 +553,9 @@ PROPERTIES["C01"]["bounds"]["thorough"] += "; the three-statement programs with 
 
 PROPERTIES["C20"]["runs"] += [dict(pkg="accumulation", files=PIPE_FILES, entry="Harness_P20", args=dict(sample_every=5, max_samples=20))]
 PROPERTIES["C20"]["explanation"] += (" Source level (P20): " + PIPE_EXPL + "plus, for this harness, the package's REAL SSA (ssa.NewProgram / CreatePackage / Build on the type-checked AST), the REAL inferContracts on every eligible function, "
-    "call-site sites in the assertion tree and the REAL duplication of the callee's triggers. A callee in ten shapes, an argument that is nil / fresh / either behind an opaque flag, four uses (direct, nested call, checked, via a local): "
+    "call-site sites in the assertion tree and the REAL duplication of the callee's triggers. A callee in ten shapes, an argument that is nil / fresh / either behind an opaque flag / the literal nil handed over directly, four uses (direct, nested call, checked, via a local): "
     "'Entry can dereference nil => reported' per program, and 'a true nonnil->nonnil contract keeps non-nil arguments clean'.")
-PROPERTIES["C20"]["bounds"]["quick"] += "; source level: all 120 programs of the P20 family"
+PROPERTIES["C20"]["bounds"]["quick"] += "; source level: all 160 programs of the P20 family"
 
 PROPERTIES["C07"]["runs"] += [
     dict(pkg="accumulation", files=PIPE_FILES, entry="Harness_P07", name="_contracts", quick=dict(params=dict(PAIRS=0, CONTRACTS=1)), thorough=dict(params=dict(PAIRS=0, CONTRACTS=1)), args=dict(sample_every=7, max_samples=16)),
@@ -614,3 +614,9 @@ PROPERTIES["C01"]["explanation"] += (" P01T: a callee that reads and possibly re
     "'g is nil' as a term in the opaque flag. The guarded double call over a side-effecting callee is a recorded known finding (NilAway assumes calls are idempotent).")
 PROPERTIES["C01"]["bounds"]["quick"] += "; P01T: all 30 programs (3 callees x 2 initial states x 5 caller forms; known finding: 2 fail)"
 PROPERTIES["C01"]["bounds"]["thorough"] += "; P01T as quick"
+
+PROPERTIES["C01"]["runs"] += [dict(pkg="accumulation", files=PIPE_FILES, entry="Harness_P20", args=dict(sample_every=5, max_samples=20))]
+PROPERTIES["C01"]["explanation"] += (" P20 (shared with C20): the same pipeline WITH inferred contracts, call-site sites and trigger duplication switched on - direct, nested, checked and stored calls of a one-parameter callee in ten shapes; "
+    "'Entry can dereference nil => reported' per program.")
+PROPERTIES["C01"]["bounds"]["quick"] += "; P20: all 160 programs with contract inference on"
+PROPERTIES["C01"]["bounds"]["thorough"] += "; P20 as quick"
